@@ -3,7 +3,7 @@ CANON = True
 
 import ast
 
-from .. import boolfn, compq, pyq
+from .. import pm, boolfn, compq, pyq
 from ..pysrc import dotted, norm, flat
 
 R, CP, MC = compq.RM, compq.CP, compq.MC
@@ -78,7 +78,7 @@ def check(ctx, src):
     rf = mc.func("require")
     ctx.require(rf is not None, "require not found")
     t = flat(rf)
-    ctx.check("source_exports = getattr(source_module, '_hy_export_macros', [k for k in source_macros.keys() if not k.startswith('_')])" in t and "if assignments == 'ALL' or k in source_exports" in t, "MAC-INSTALL", f"{MC}|require|exports",
+    ctx.check(pm.find(rf, "getattr(source_module, '_hy_export_macros', [k for k in source_macros.keys() if not k.startswith('_')])") is not None and pm.find(rf, "assignments == 'ALL' or k in source_exports") is not None, "MAC-INSTALL", f"{MC}|require|exports",
               "`*` must bring in _hy_export_macros or, without it, the macros not starting with an underscore; 'ALL' everything", MC, rf.lineno, detail="_hy_export_macros / no leading underscore")
     ctx.check("if prefix: prefix += '.'" in t and "alias = mangle(prefix + alias)" in t and "_name = mangle(name)" in t and "target_macros[alias] = source_macros[_name]" in t, "MAC-INSTALL", f"{MC}|require|names",
               "macros are installed as mangle(prefix.alias) from mangle(name)", MC, rf.lineno, detail="mangle(prefix + alias)")
@@ -93,7 +93,9 @@ def check(ctx, src):
               "the warning must test the mangled name against the core macros and honour the pragma", CP, w.lineno, witness="(defmacro do-mac [] 1) does not warn (its core name is do_mac)", detail="mangle(name) in builtins._hy_macros and option")
     ctx.check(pyq.contains(md, lambda n: isinstance(n, ast.Call) and norm(n) == "compiler.warn_on_core_shadow(name)") is not None, "MAC-WARN", f"{R}|compile_macro_def|warns", "defmacro does not warn about shadowing a core macro", R, md.lineno, detail="warn_on_core_shadow(name)")
     tr = flat(rf)
-    ctx.check("if compiler: compiler.warn_on_core_shadow(prefix + alias)" in tr and tr.index("compiler.warn_on_core_shadow(prefix + alias)") < tr.index("target_macros[alias] = source_macros[_name]"), "MAC-WARN", f"{MC}|require|warns",
+    wcall = pyq.contains(rf, lambda n: isinstance(n, ast.Call) and dotted(n.func) == "compiler.warn_on_core_shadow")
+    inst = pyq.contains(rf, lambda n: isinstance(n, ast.Assign) and isinstance(n.targets[0], ast.Subscript) and isinstance(n.value, ast.Subscript) and "macros" in norm(n.targets[0].value) and "macros" in norm(n.value.value))
+    ctx.check(wcall is not None and inst is not None and (wcall.lineno, wcall.col_offset) < (inst.lineno, inst.col_offset) and pyq.has_atoms(wcall, rf, ["compiler"]), "MAC-WARN", f"{MC}|require|warns",
               "require must warn (with the unmangled, prefixed alias) before installing", MC, rf.lineno, detail="warn before install")
     glo = cp.func("HyASTCompiler.get_local_option")
     t = flat(glo) if glo else ""
